@@ -51,4 +51,14 @@ var targets = []Target{
 			{Func: "BinaryProtocol.WriteBaseTypeWithDesc", Name: "WriteBase", Style: "write"},
 		},
 	},
+	{
+		Module: "Gen_thrift",
+		Dir:    "thrift",
+		Tables: []string{"typeSize"},
+		State:  map[string][]string{"BinaryProtocol": {"Buf", "Read"}},
+		Funcs: []string{"TypeSize", "Type.Valid", "Type.IsInt", "Type.IsComplex",
+			"BinaryEncoding.DecodeBool", "BinaryEncoding.DecodeByte", "BinaryEncoding.DecodeInt16", "BinaryEncoding.DecodeInt32",
+			"BinaryEncoding.DecodeInt64", "BinaryEncoding.DecodeDouble",
+			"BinaryProtocol.skipn", "BinaryProtocol.next_nopanic", "BinaryProtocol.skipstr"},
+	},
 }
